@@ -138,6 +138,10 @@ def build(d, cache=None):
 
 ATTRS = ["a", "b", "c", "a_b", "class_", "_1x", "_p"]
 SOURCES = {"a": None, "b": None, "c": None, "a_b": "a b", "class_": "class", "_1x": "1x", "_p": None}
+# property names spelled like schema keywords (JSON name and/or attribute): nothing may treat them as the keyword
+KW_ATTRS = ["default", "const", "enum", "description", "required", "items", "type", "title", "default_", "enum_"]
+SOURCES.update({"default": None, "const": None, "enum": None, "description": None, "required": None, "items": None, "type": None,
+                "title": None, "default_": "default", "enum_": "enum"})
 
 
 class DumpGen:
@@ -249,6 +253,8 @@ class DumpGen:
     def object_kws(self, kw, out, depth, is_class):
         r = self.rng
         names = r.sample(ATTRS, r.choice([0, 1, 2, 2, 3]))
+        if r.random() < 0.2:
+            names.append(r.choice(KW_ATTRS))
         if names or is_class or r.random() < 0.3:
             kw["hasProps"] = True
             plist = []
